@@ -209,7 +209,7 @@ func c01MakeSrc(r *core.Rand, v2019, frag bool, phoneVar int) ([]byte, ref.Param
 func c01Worker(c *core.Collector, x *Ctx) {
 	c.Rule = "source header = Decode(reference-built frame) over {2013,2019}x{fragmented,not}x{encrypt bit}x phone classes x serial specials; " +
 		"bodies: every length 0..1023 x content classes (random, all-7e, all-7d, alternating escape pairs, specials at ends/adjacent, " +
-		"checksum steered to 7e/7d/01/02, ...); exhaustive bodies of length<=3 over {7e,7d,01,02,00}. " +
+		"checksum steered to 7e/7d/01/02, ...); bodies with exactly k special bytes for k=0..140 and around 256/512/1023 x checksum 7e/7d/other; exhaustive bodies of length<=3 over {7e,7d,01,02,00}. " +
 		"non-trivial = output has >=1 escape pair, or checksum is 7e/7d/01/02, or len>=1000, or source fragmented; distinct by hash of (source frame, ids, body)"
 	type job struct{ l, class, variant int }
 	var jobs []job
@@ -275,6 +275,63 @@ func c01Worker(c *core.Collector, x *Ctx) {
 		}
 		run(c01Case{Kind: "c01", Src: core.Hex(src), ReplyID: reply, PSerial: ps, Body: core.Hex(body), Class: cls})
 	})
+	// special-count sweep: bodies with EXACTLY k bytes that need escaping (k = 0..140, and around 256 / 512 / 1023), in an
+	// otherwise special-free frame, with the checksum steered to 7e, 7d or left alone: output-buffer sizing and growth in
+	// the escaper depend on the number of escapes, and the closing delimiter / an escaped checksum land right behind them
+	var ks []int
+	for k := 0; k <= 140; k++ {
+		ks = append(ks, k)
+	}
+	ks = append(ks, 250, 251, 252, 253, 254, 255, 256, 257, 258, 505, 506, 507, 508, 509, 510, 511, 512, 513, 514, 1015, 1016, 1017, 1018, 1019, 1020, 1021, 1022, 1023)
+	reps := c.N(2, 6)
+	core.ParallelFor(len(ks)*3*2*reps, ncpu(), func(i int) {
+		r := core.NewRand(c.Seed, "c01k", uint64(i))
+		k := ks[i%len(ks)]
+		target := []byte{0, 0x7e, 0x7d}[i/len(ks)%3]
+		v2019 := i/len(ks)/3%2 == 1
+		n := 6
+		if v2019 {
+			n = 10
+		}
+		bcd := make([]byte, n)
+		for j := range bcd {
+			bcd[j] = byte(r.Intn(10))<<4 | byte(r.Intn(10))
+		}
+		q := ref.Params{ID: 0x0200, V2019: v2019, VersionByt: 1, BCD: bcd, Serial: uint16(1 + r.Intn(0x7000)), Body: []byte{1, 2, 3}}
+		src := ref.Build(q)
+		l := k + 2 + r.Intn(20)
+		if l > 1023 {
+			l = 1023
+		}
+		body := make([]byte, l)
+		for j := range body {
+			body[j] = byte(0x10 + r.Intn(0x60)) // 10..6f: never special
+		}
+		for _, p := range r.Perm(l)[:k] {
+			body[p] = []byte{0x7e, 0x7d}[r.Intn(2)]
+		}
+		ps := uint16(0x1000 + r.Intn(0x6000))
+		if target != 0 && l-k >= 2 {
+			var fill []int
+			for j := range body {
+				if body[j] != 0x7e && body[j] != 0x7d {
+					fill = append(fill, j)
+				}
+			}
+			a, b := fill[0], fill[len(fill)-1]
+			for try := 0; try < 64; try++ {
+				p := ref.Payload(ref.Params{ID: 0x8001, V2019: v2019, VersionByt: 1, BCD: bcd, Serial: ps, Body: body})
+				body[b] ^= p[len(p)-1] ^ target
+				if body[b] != 0x7e && body[b] != 0x7d {
+					break
+				}
+				body[a] = byte(0x10 + r.Intn(0x60))
+			}
+		}
+		run(c01Case{Kind: "c01", Src: core.Hex(src), ReplyID: 0x8001, PSerial: ps, Body: core.Hex(body), Class: fmt.Sprintf("exactly-%d-specials-chk-%02x", k, target)})
+		c.Count("special_count_sweep_cases", 1)
+	})
+	c.Floor("special_count_sweep_cases", 1000)
 	// exhaustive: all bodies of length <= 3 over the 5-symbol alphabet, each header variant
 	alpha := []byte{0x7e, 0x7d, 0x01, 0x02, 0x00}
 	var small [][]byte
